@@ -23,6 +23,7 @@ class RequestResponse(Generic[ResponseBodyT]):
     """Class for sending a specific type of KNX/IP Packet to a KNX/IP device and wait for the corresponding answer."""
 
     __slots__ = (
+        "_aborted",
         "_error_code",
         "_response",
         "_response_received_event",
@@ -54,6 +55,12 @@ class RequestResponse(Generic[ResponseBodyT]):
 
         self._response: ResponseBodyT | None = None
         self._error_code: ErrorCode | None = None
+        self._aborted = False
+
+    def abort(self) -> None:
+        """Stop waiting for the response. A pending `request()` raises `RequestResponseError`."""
+        self._aborted = True
+        self._response_received_event.set()
 
     def _create_knxipframe(self) -> KNXIPFrame:
         """Create KNX/IP Frame object to be sent to device."""
@@ -87,6 +94,10 @@ class RequestResponse(Generic[ResponseBodyT]):
             # cleanup to not leave callbacks (for asyncio.CancelledError)
             self._transport.unregister_callback(callb)
 
+        if self._aborted:
+            raise RequestResponseError(
+                f"Request of type '{self.__class__.__name__}' was aborted"
+            )
         if self._response is None:
             raise RequestResponseError(
                 f"KNX bus responded to request of type '{self.__class__.__name__}' "
